@@ -521,7 +521,7 @@ def build_item(rng, kind=None, size=None, n_leaves=None, mid_levels=None, weight
         if weights:
             for atom in mol.atoms:
                 if not atom["arom"] and rng.random() < 0.45:
-                    atom["w"] = rng.choice([0.5, 0.25, 2.0, 3.0, 0.1, 1.5])
+                    atom["w"] = rng.choice([0.5, 0.25, 2.0, 3.0, 0.1, 1.5, 0])
                     atom["wpos"] = rng.random() < 0.7
     else:
         mol = gen_coarse(rng, size)
